@@ -52,6 +52,7 @@ class Task:
         self.op_events = 0
         self.op_steps = 0
         self.harness = 1            # >0: harness code is running in this thread (untraced, no pre-emption)
+        self.in_loop = 0            # cold mode: inside an integration loop (callees untraced until _integrate returns)
         self.results = []
         self.armed = None           # fault armed for the current op: {"at": n, "kind":..., "exc":...}
         self.fired = None
@@ -178,7 +179,7 @@ class Sim:
         if t.harness:
             return None
         name = co.co_name
-        if self.mode == "cold" and (name in HOT_FUNCS or co.co_filename.endswith("_vector.py")):
+        if self.mode == "cold" and (t.in_loop or name in HOT_FUNCS or co.co_filename.endswith("_vector.py")):
             return None
         if name in TOUCH_FUNCS:
             self.touch_calls[name] = self.touch_calls.get(name, 0) + 1
@@ -192,6 +193,8 @@ class Sim:
             t = self.current
             t.where = (frame.f_code.co_name, frame.f_lineno)
             self.point(t)
+        elif event == "return" and frame.f_code.co_name == "_integrate":
+            self.current.in_loop = 0           # cold mode: the loop is over, trace callees again
         return self._lt
 
     def step_hook(self, altitude):
@@ -207,6 +210,8 @@ class Sim:
             f = sys._getframe(2)
             if f.f_trace_lines and f.f_code.co_filename.startswith(self.libdir):
                 f.f_trace_lines = False             # integration loop entered: stop line events for this frame
+                f.f_trace_opcodes = False
+                t.in_loop = 1                       # ... and do not trace what the loop calls (per-step unit conversions)
         if self.mode != "line":
             t.where = ("<integration step>", 0)
             self.point(t)
@@ -279,6 +284,7 @@ class Sim:
                 t.op_idx = i
                 t.op_events = 0
                 t.op_steps = 0
+                t.in_loop = 0
                 t.fired = None
                 t.where = ("<op start>", i)
                 t.armed = self.faults.get((t.idx, i))
